@@ -166,7 +166,8 @@ Section Mgr.
   Inductive aout : Type :=
   | Added (rebuilt : bool)
   | ExistingSource
-  | Internal.            (* NameError / anything the model has no reading for *)
+  | Internal             (* NameError / anything the model has no reading for *)
+  | WriteFailed.         (* the persistent store refused the write (OSError out of update_cache) *)
 
   Definition fp_arg (e : env) (a : uarg) : option J :=
     match a with
@@ -258,6 +259,16 @@ Section Mgr.
              (make_default : bool) : mstate * aout :=
     run_add (mt_steps mt) alias dh hid make_default st (mkEnv None None None None) false.
 
+  (* add() while the persistent store refuses writes: update_cache persists first and raises before it
+     touches what the handler serves, the exception leaves add() at that statement. Whatever add() would
+     have done up to there (nothing but running the builder) is what remains. *)
+  Definition add_blocked (st : mstate) (alias : string) (dh : dhandler) (hid : nat)
+             (make_default : bool) : mstate * aout :=
+    match add st alias dh hid make_default with
+    | (_, Added true) => (mkM (ms_sources st) (ms_default st) (ms_handlers st) (S (ms_builds st)), WriteFailed)
+    | r => r
+    end.
+
   (* get / remove / list *)
   Definition get (st : mstate) (alias : string) : option source := lookup alias (ms_sources st).
   Definition remove (st : mstate) (alias : string) : mstate * bool :=
@@ -270,6 +281,7 @@ Section Mgr.
 
   Inductive op : Type :=
   | OAdd (alias : string) (dh : dhandler) (hid : nat) (make_default : bool)
+  | OAddBlocked (alias : string) (dh : dhandler) (hid : nat) (make_default : bool)
   | OGet (alias : string)
   | ORemove (alias : string)
   | OList.
@@ -282,6 +294,7 @@ Section Mgr.
   Definition step (st : mstate) (o : op) : mstate * obs :=
     match o with
     | OAdd a dh h md => let (st', r) := add st a dh h md in (st', BAdd r)
+    | OAddBlocked a dh h md => let (st', r) := add_blocked st a dh h md in (st', BAdd r)
     | OGet a => (st, BGet (get st a))
     | ORemove a => let (st', r) := remove st a in (st', BRemove r)
     | OList => (st, BList (list_aliases st))
